@@ -1,4 +1,4 @@
 ------------------------------ MODULE MC_NameRes ------------------------------
 EXTENDS NameRes, Json
-Emit == Done => PrintT(<<"REPLAY", ToJson([cte |-> cte, items |-> items, joins |-> joins, ref |-> ref, res |-> Resolution])>>)
+Emit == Done => PrintT(<<"REPLAY", ToJson([cte |-> cte, ctew |-> ctew, items |-> items, joins |-> joins, ref |-> ref, res |-> Resolution])>>)
 =============================================================================
